@@ -296,3 +296,256 @@ class Model:
             raise AnalysisError("Cache._cache / Cache._keys not found as "
                                 "dict / list in the model")
         return c[1], k[1]
+
+
+# ----------------------------------------------------------------------
+# the file-monitoring cache (util.py) and LazyContourList (contour.py)
+
+UT = "dclab/util.py"
+CO = "dclab/features/contour.py"
+
+
+def _install_nested_decorators():
+    """lib_C04 binds a nested ``def`` without applying its decorators;
+    ``@self.lru_cache`` on an inner function is the memo of the file cache"""
+    if getattr(L.Interp, "_c17_nested_deco", False):
+        return
+    L.Interp._c17_nested_deco = True
+
+    def s_FunctionDef(self, st, f):
+        fn = L.Closure(self, st, f.genv, cell=f)
+        for d in reversed(st.decorator_list):
+            fn = self.call(self.eval(d, f), [fn], {}, d)
+        f.loc[st.name] = fn
+    L.Interp.s_FunctionDef = s_FunctionDef
+
+
+def _install_bare_raise():
+    """``raise`` without operand inside a handler re-raises the exception
+    being handled (lib_C04 stops with an analysis error)"""
+    if getattr(L.Interp, "_c17_bare_raise", False):
+        return
+    L.Interp._c17_bare_raise = True
+    orig_raise = L.Interp.s_Raise
+
+    def s_Try(self, st, f):
+        try:
+            try:
+                self.block(st.body, f)
+            except (L.ModelRaise, L.ModelFault) as e:
+                for h in st.handlers:
+                    if self._handler_matches(h, e, f):
+                        if h.name:
+                            f.loc[h.name] = e.exc if isinstance(
+                                e, L.ModelRaise) else L.ExcValue(
+                                    e.kind, (e.msg,))
+                        stack = self.__dict__.setdefault("_handling", [])
+                        stack.append(e)
+                        try:
+                            self.block(h.body, f)
+                        finally:
+                            stack.pop()
+                        break
+                else:
+                    raise
+            else:
+                self.block(st.orelse, f)
+        finally:
+            self.block(st.finalbody, f)
+
+    def s_Raise(self, st, f):
+        if st.exc is None:
+            stack = self.__dict__.get("_handling") or []
+            if not stack:
+                raise L.ModelFault("RuntimeError", "No active exception to "
+                                   "reraise", st)
+            raise stack[-1]
+        return orig_raise(self, st, f)
+    L.Interp.s_Try = s_Try
+    L.Interp.s_Raise = s_Raise
+
+
+class FileModel:
+    """`file_monitoring_lru_cache` loaded from its syntax tree; files live
+    on the model file system of lib_C10 and carry (content, mtime_ns)"""
+
+    def __init__(self, repo, maxsize=100):
+        import functools
+        from .lib_C10 import FS, MPath
+        from .lib_C03 import _install_walrus
+        from .lib_common import extras
+        _install_walrus()
+        _install_nested_decorators()
+        self.it = L.Interp(repo)
+        self.fs = FS()
+        self.meta = {}              # canonical name -> (content, mtime_ns)
+        self.links = set()          # spellings that are symbolic links
+        outer = self
+
+        class Stat:
+            _strict_attrs = True
+
+            def __init__(self, content, mtime_ns):
+                self.st_mtime_ns = mtime_ns
+                self.st_mtime = mtime_ns // 10**9 * 1.0   # float seconds
+                self.st_ctime_ns = mtime_ns
+                self.st_size = len(content)
+                self.st_ino = 1
+                self.st_mode = 0o100644
+
+            def __iter__(self):
+                raise AnalysisError("iteration over os.stat_result is not "
+                                    "modelled")
+
+        class P(MPath):
+            def stat(s):
+                c = outer.fs.canon(s.s)
+                if c not in outer.fs.files:
+                    raise L.ModelFault("FileNotFoundError", s.s, None)
+                return Stat(*outer.meta[c])
+
+            def lstat(s):
+                # a symbolic link has its own, unchanging stats
+                if s.s in outer.links:
+                    return Stat(outer.fs.alias[s.s].encode(), 1)
+                return s.stat()
+
+            def resolve(s, strict=False):
+                return P(outer.fs, outer.fs.canon(s.s))
+
+            def read_bytes(s):
+                return outer.meta[outer.fs.canon(s.s)][0]
+
+        class PF(L.ModelType):
+            def __call__(_s, *a):
+                return P(outer.fs, a[0])
+        self.P = P
+
+        def lru_cache(maxsize=128, typed=False):
+            if callable(maxsize):
+                return functools.lru_cache(128)(maxsize)
+            return functools.lru_cache(maxsize=maxsize, typed=typed)
+
+        def os_stat(p):
+            return P(outer.fs, str(p)).stat()
+        ext = {
+            **extras(L),
+            "functools": L.namespace(
+                "functools", lru_cache=lru_cache, cache=lru_cache(None),
+                wraps=lambda f: (lambda w: w),
+                update_wrapper=lambda w, f, *a, **k: w),
+            "pathlib": L.namespace("pathlib", Path=PF(
+                "Path", lambda o: isinstance(o, MPath))),
+            "os": L.namespace("os", stat=os_stat, path=L.namespace(
+                "os.path", exists=lambda p: P(outer.fs, str(p)).exists(),
+                realpath=lambda p: outer.fs.canon(str(p)),
+                getmtime=lambda p: os_stat(p).st_mtime,
+                getsize=lambda p: os_stat(p).st_size)),
+        }
+        self.env = self.it.env(UT, ext)
+        cls = self.env.lookup("file_monitoring_lru_cache")
+        self.calls = []
+
+        def func(path, *args, **kwargs):
+            c = outer.fs.canon(str(path))
+            self.calls.append((c, args, tuple(sorted(kwargs.items()))))
+            if c not in outer.fs.files:
+                raise L.ModelFault("FileNotFoundError", str(path), None)
+            return ("digest", outer.meta[c][0], args,
+                    tuple(sorted(kwargs.items())))
+        r = L.run(lambda: L.lookup_attr(self.it, cls(maxsize=maxsize),
+                                        "__call__", None)(func))
+        if r[0] != "ok":
+            raise AnalysisError("file_monitoring_lru_cache(...)(func) "
+                                f"cannot be evaluated: {r}")
+        self.wrapped = r[1]
+
+    def write(self, name, content, mtime_ns):
+        c = self.fs.canon(name)
+        self.fs.files.add(c)
+        self.meta[c] = (bytes(content), mtime_ns)
+
+    def remove(self, name):
+        c = self.fs.canon(name)
+        self.fs.files.discard(c)
+        self.meta.pop(c, None)
+
+    def call(self, path, *args, as_path=False, **kwargs):
+        p = self.P(self.fs, path) if as_path else path
+        return L.run(lambda: self.it.call(self.wrapped, [p] + list(args),
+                                          kwargs, None))
+
+
+class Mask:
+    _strict_attrs = True
+
+    def __init__(self, i):
+        self.i = i
+
+    def __getitem__(self, k):
+        return self
+
+    def tobytes(self):
+        return bytes([self.i])
+
+
+class LazyModel:
+    """`LazyContourList` loaded from its syntax tree over model masks; the
+    contour of event i is the token ('contour', i)"""
+
+    def __init__(self, repo, n_events, max_events, failing=()):
+        import collections
+        from .lib_C03 import _install_walrus
+        from .lib_common import extras
+        _install_walrus()
+        _install_bare_raise()
+        self.it = L.Interp(repo)
+        self.computed = []
+        failing = set(failing)
+
+        def get_contour(mask):
+            if not isinstance(mask, Mask):
+                raise AnalysisError("get_contour called on something that "
+                                    "is not an event mask")
+            if mask.i in failing:
+                raise L.ModelRaise(L.ExcValue("ValueError",
+                                              ("no contour",)))
+            self.computed.append(mask.i)
+            return ("contour", mask.i)
+
+        class Arange(list):
+            def __getitem__(s, k):
+                r = list.__getitem__(s, k)
+                return Arange(r) if isinstance(r, list) else r
+        ext = {
+            **extras(L),
+            "deque": collections.deque,
+            "collections": L.namespace("collections",
+                                       deque=collections.deque),
+            "numbers": L.namespace("numbers", Integral=L.ModelType(
+                "Integral", lambda o: isinstance(o, int)
+                and not isinstance(o, bool))),
+            "np": L.namespace("np", nan=float("nan"),
+                              arange=lambda n: Arange(range(n))),
+            "get_contour": get_contour,
+        }
+        self.env = self.it.env(CO, ext)
+        cls = self.env.lookup("LazyContourList")
+        masks = [Mask(i) for i in range(n_events)]
+        kw = {} if max_events == "default" else {"max_events": max_events}
+        r = L.run(lambda: cls(masks, **kw))
+        if r[0] != "ok":
+            raise AnalysisError(f"LazyContourList(...) cannot be evaluated: "
+                                f"{r}")
+        self.obj = r[1]
+
+    def get(self, idx):
+        return L.run(lambda: L.lookup_attr(self.it, self.obj, "__getitem__",
+                                           None)(idx))
+
+    def stores(self):
+        """all deque-like attributes of the object"""
+        import collections
+        return {k: v for k, v in self.obj._attrs.items()
+                if isinstance(v, (collections.deque, list))
+                and k != "masks"}
